@@ -28,3 +28,8 @@ def make(sh):
 
 def obligations(tier, seed):
     return [make(sh) for sh in stmt.corpus(tier, seed)]
+
+
+def gates(tier, seed):
+    from .gates import assembler_gates
+    return assembler_gates(tier, seed)
